@@ -947,6 +947,10 @@ func (s *subscriptionState) done() {
 func (s *subscriptionState) complete() {
 	s.writeMu.Lock()
 	defer s.writeMu.Unlock()
+	// re-check under writeMu: the caller's check races with a removal that closes completed
+	if s.removed.Load() {
+		return
+	}
 	s.writer.Complete()
 }
 
@@ -955,6 +959,10 @@ func (s *subscriptionState) complete() {
 func (s *subscriptionState) error(data []byte) {
 	s.writeMu.Lock()
 	defer s.writeMu.Unlock()
+	// re-check under writeMu: the caller's check races with a removal that closes completed
+	if s.removed.Load() {
+		return
+	}
 	s.writer.Error(data)
 }
 
